@@ -27,6 +27,8 @@ struct IStack {
     virtual void move_assign(IStack & o) = 0;
     virtual std::unique_ptr<IStack> default_constructed() const = 0;
     virtual std::unique_ptr<IStack> rebuild() const = 0;
+    // field(make_parameter_pack(own configuration, copy of the backend's complete owning data))
+    virtual std::unique_ptr<IStack> rebuild_from_backend() const = 0;
 };
 
 struct Factory {
